@@ -117,3 +117,17 @@ def run(ctx, rep, tier):
     if len(sites) < 4:
         raise AnalysisError(f"C09.e: only {len(sites)} replacement sites found")
     rep.analysed["replacement_sites"] = [f"{q}: {reasons.get(q, '?')}" for q, _ in sites]
+
+
+def _shared(ctx, rep, tier):
+    from .shared import delegate
+    delegate(ctx, rep, tier, "C08", ("C08.c",), "C09.f", "greedy priorities reach the tie test: every pattern of a clause is recorded with its clause's priority (else a tie is masked by a defaulted 0)",
+             where="CaseNode.convert", pred=lambda v: "priority" in v.construct or "prio" in v.construct)
+
+
+_run0 = run
+
+
+def run(ctx, rep, tier):
+    _run0(ctx, rep, tier)
+    _shared(ctx, rep, tier)
